@@ -16,6 +16,16 @@ CHECKS = {
             'Trusted: the reference walker in vf/props/c01.py and the recording subclasses in vf/targets.py. Bounds: '
             'target depth <= 4, width <= 3, path length <= 6.',
             'DESIGN.md section 4 / C01'),
+    'C02': ('Hypothesis type-directed generation of T-expression operation sequences (each step chosen by reference '
+            'evaluation of the prefix) vs direct application of the same operations with the operator module; echo-call '
+            'logs compare argument pass-through and evaluation order',
+            'Generated-input search with an exact differential oracle (plain Python evaluation of the same chain). '
+            'Covers every operator kind, nested T/Spec arguments evaluated against the original target, first-failure '
+            'position for attribute/item/arithmetic failures, and that nothing right of the first failure is evaluated '
+            '(side-effecting nested arguments).',
+            'Trusted: vf/texpr.py ref_eval. Bounds: <= 7 operations, small integer operands, exponent <= 3. Failing call '
+            'steps and exotic exception classes: only class preservation is asserted (DESIGN.md section 6).',
+            'DESIGN.md section 4 / C02'),
 }
 
 NOT_YET = 'check not built yet in this session (design in DESIGN.md section 4); will be claimed once its check is quiet on the unchanged tree'
